@@ -86,6 +86,20 @@ CHECKS = {
         ],
         "assumptions": ["Partition is reached by including src/subdivision.cpp in the harness TU", "simplification is judged on piecewise-planar solids with tolerances below the feature size, as the statement says"],
     },
+    "C08": {
+        "subs": [
+            {"name": "roundtrip", "bin": "c08_roundtrip", "variant": "asan",
+             "quick": {"n": 4800, "size": 100}, "thorough": {"n": 300000, "size": 150}},
+        ],
+        "assumptions": ["library-assigned and user face IDs are compared exactly after the first import (they are user-supplied from then on); an absent run transform means identity"],
+    },
+    "C03": {
+        "subs": [
+            {"name": "csg", "bin": "c03_csg", "variant": "asan",
+             "quick": {"n": 4800, "size": 100}, "thorough": {"n": 300000, "size": 150}},
+        ],
+        "assumptions": ["transforms inside the DAG are rigid motions, mirrors and uniform scales so that guards transform exactly; leaves are posed primitives (epsilon-valid, general position by construction)"],
+    },
 }
 
 PBT = "property-based testing (rapidcheck byte-tape generators, shrinking, replay files)"
@@ -113,4 +127,8 @@ MANIFEST_TEXT["C16"] = {"text": "Hull judged by vertex-subset, containment and c
                         "note": "sampled points; small structuring solids (<=40 triangles)", "technique": PBT + " with validity predicates and a set-theoretic reference"}
 MANIFEST_TEXT["C19"] = {"text": "Refine*/Simplify/SetTolerance judged by metamorphic invariants (volume, area, vertex retention, on-surface, n*n count, Refine(n) subset of Refine(2n)) and the closed-manifold predicate; every subdivision pattern up to a bound enumerated and checked to tile its triangle/quad",
                         "note": "patterns exhaustive up to triples<=12 / quadruples<=6 (thorough 24 / 10); meshes sampled", "technique": PBT + " with metamorphic relations, plus exhaustive enumeration of subdivision patterns"}
+MANIFEST_TEXT["C08"] = {"text": "export -> import -> export compared as numbering-independent sorted triangle records over every MeshGL field (both precisions), refinement equivalence, Merge() recovery and exact OBJ round trip, over Manifolds reached by generated programs",
+                        "note": "sampled programs of <= 9 steps; meshes <= 1500 triangles", "technique": PBT + " with round-trip oracles"}
+MANIFEST_TEXT["C03"] = {"text": "each generated expression DAG executed five ways (eager, lazy, generated forcing history, algebraic rewrites, shared-first); differential agreement plus agreement with the set formula evaluated from the leaves by an independent winding number",
+                        "note": "sampled DAGs of <= 7 leaves; classification at sampled guarded points", "technique": PBT + " differential/metamorphic testing across evaluation strategies"}
 NOT_CLAIMED = {}
